@@ -1,14 +1,19 @@
 // C26 — concurrent clients of the daemon see a linearizable history.
 // M: MCDaemonLin: every interleaving of Invoke/Linearize/Respond of 2-3 clients x 2 requests
-//    (NoDupSeq, NoLostAdd, SeqGrows, FinalAgrees).
+//
+//	(NoDupSeq, NoLostAdd, SeqGrows, FinalAgrees).
+//
 // V: a real daemon (daemon.Serve on a temporary socket + database, in-process; thorough: also in a
-//    separate process) is driven by 2..8 concurrent clients (separate connections, and one client
-//    shared by several goroutines after its first successful request); every request is logged
-//    Invoke/Respond through one mutex+sequence tracer; after each history the clients quiesce and the
-//    whole state is read back sequentially.  TraceDaemonLin (TLC, depth-first, high-water mark)
-//    accepts a history iff it can place the linearization points.
+//
+//	separate process) is driven by 2..8 concurrent clients (separate connections, and one client
+//	shared by several goroutines after its first successful request); every request is logged
+//	Invoke/Respond through one mutex+sequence tracer; after each history the clients quiesce and the
+//	whole state is read back sequentially.  TraceDaemonLin (TLC, depth-first, high-water mark)
+//	accepts a history iff it can place the linearization points.
+//
 // Self-test in every run: the acceptor must reject three hand-made non-linearizable histories
-//    (lost add, duplicate sequence number, stale read) and accept two hand-made concurrent ones.
+//
+//	(lost add, duplicate sequence number, stale read) and accept two hand-made concurrent ones.
 package main
 
 import (
@@ -63,9 +68,9 @@ func run(c *lib.Ctx) error {
 	wg.Add(1)
 	go func() {
 		defer wg.Done()
-		ms := []string{"CONSTANTS Clients = {1, 2} MaxOps = 2\n"}
+		ms := []string{"CONSTANTS Clients = {1, 2} MaxOps = 2 Pool <- PoolSmall\n"}
 		if c.Thorough() {
-			ms = append(ms, "CONSTANTS Clients = {1, 2, 3} MaxOps = 1\n", "CONSTANTS Clients = {1, 2} MaxOps = 3\n")
+			ms = []string{"CONSTANTS Clients = {1, 2} MaxOps = 2 Pool <- PoolAll\n", "CONSTANTS Clients = {1, 2, 3} MaxOps = 1 Pool <- PoolAll\n", "CONSTANTS Clients = {1, 2, 3} MaxOps = 2 Pool <- PoolSmall\n"}
 		}
 		for _, m := range ms {
 			r, err := c.TLC("MCDaemonLin "+m[10:len(m)-1], lib.TLCRun{Dir: dir, Module: "MCDaemonLin", Workers: 2, Timeout: 12 * time.Minute, HeapGB: 6,
@@ -144,7 +149,7 @@ func run(c *lib.Ctx) error {
 // judgeAll validates the histories in batches; a rejected history is reported and the rest of its
 // batch is validated again without it.
 func judgeAll(c *lib.Ctx, dir string, hists []History) error {
-	per := 25
+	per := 50
 	type batch struct{ hs []History }
 	var batches []batch
 	for i := 0; i < len(hists); i += per {
@@ -152,7 +157,7 @@ func judgeAll(c *lib.Ctx, dir string, hists []History) error {
 	}
 	var mu sync.Mutex
 	var firstErr error
-	lib.Parallel(len(batches), 6, func(bi int) {
+	lib.Parallel(len(batches), 4, func(bi int) {
 		hs := batches[bi].hs
 		for len(hs) > 0 {
 			bad, err := validate(c, dir, fmt.Sprintf("TraceDaemonLin(V %d)", bi), hs)
